@@ -344,3 +344,62 @@ Definition detect_marker (guarded is_endobj : bool) (line : list N) : dres :=
   if (i <? 0)%Z then DRes i
   else if (Z.of_nat (length line) <=? i + Z.of_nat (length marker))%Z then DRes (-1)
   else dm_loop (S (length line)) guarded is_endobj marker line (i + Z.of_nat (length marker))%Z i.
+
+(* ------------------------------------------------------------------ 9. Flate predictor parameters *)
+
+(* safemath.AddInt / MultiplyInt (C42 proves them exact): ok iff both operands >= 0 and the result fits int64 *)
+Definition max_int : Z := 9223372036854775807%Z.
+Definition safe_add (a b : Z) : option Z :=
+  if (a <? 0)%Z || (b <? 0)%Z || (max_int <? a + b)%Z then None else Some (a + b)%Z.
+Definition safe_mul (a b : Z) : option Z :=
+  if (a <? 0)%Z || (b <? 0)%Z || (max_int <? a * b)%Z then None else Some (a * b)%Z.
+
+(* filter/flateDecode.go:flate.parameters — an absent entry is None *)
+Definition flate_parameters (colors bpc columns : option Z) : option (Z * Z * Z) :=
+  match (match colors with None => Some 1%Z | Some c => if (c <=? 0)%Z then None else Some c end) with
+  | None => None
+  | Some c =>
+    match (match bpc with None => Some 8%Z
+                        | Some b => if (b =? 1)%Z || (b =? 2)%Z || (b =? 4)%Z || (b =? 8)%Z || (b =? 16)%Z then Some b else None end) with
+    | None => None
+    | Some b =>
+      match (match columns with None => Some 1%Z | Some k => if (k <=? 0)%Z then None else Some k end) with
+      | None => None
+      | Some k => Some (c, b, k)
+      end
+    end
+  end.
+
+(* validatePredictor: TIFF (2) or PNG 10..15 *)
+Definition valid_predictor (p : Z) : bool := (p =? 2)%Z || ((10 <=? p)%Z && (p <=? 15)%Z).
+
+(* predictorRowParams(predictor, colors, bpc, columns) -> (rowSize, rowLen, bytesPerPixel) *)
+Definition predictor_row_params (predictor colors bpc columns : Z) : option (Z * Z * Z) :=
+  match safe_mul bpc colors with None => None | Some bits =>
+  match safe_add bits 7 with None => None | Some bitsr =>
+  let bpp := (bitsr / 8)%Z in
+  match safe_mul bits columns with None => None | Some rowbits =>
+  match safe_add rowbits 7 with None => None | Some rowbitsr =>
+  let row_size := (rowbitsr / 8)%Z in
+  if (predictor =? 2)%Z then Some (row_size, row_size, bpp)
+  else match safe_add row_size 1 with None => None | Some rl => Some (row_size, rl, bpp) end
+  end end end end.
+
+Inductive ppres := PPass (* no predictor: passThru *) | PPRows (colors row_size row_len bpp : Z) | PPErr.
+
+(* the parameter part of flate.decodePostProcess *)
+Definition post_process_params (predictor colors bpc columns : option Z) : ppres :=
+  match predictor with
+  | None => PPass
+  | Some p =>
+    if (p =? 1)%Z then PPass
+    else if negb (valid_predictor p) then PPErr
+    else match flate_parameters colors bpc columns with
+         | None => PPErr
+         | Some (c, b, k) =>
+           match predictor_row_params p c b k with
+           | None => PPErr
+           | Some (rs, rl, bpp) => PPRows c rs rl bpp
+           end
+         end
+  end.
